@@ -34,3 +34,8 @@ func H_c19_urlescape() {
 	}
 	vp.Reach("done")
 }
+
+func init() {
+	reg("H_c19_escape_html", H_c19_escape_html)
+	reg("H_c19_urlescape", H_c19_urlescape)
+}
